@@ -107,11 +107,16 @@ def check(pid, tier, seed, replay=None):
             for _, rr in recs:
                 for ln in rr[1:]:
                     e = json.loads(ln)
-                    if e.get("out") and e["nw"] == 1:
+                    if e.get("a") == "Prog" and e.get("out") and e["nw"] == 1:
                         events.append(base64.b64decode(e["out"]))
             events = [e for e in events if len(e) < 400]
             for i in range(0, len(events) - 6, 3 if thorough else 5):
                 ops.append({"a": "Stream", "id": "stream%d" % i, "events": [e.hex() for e in events[i:i + rng.randint(1, 6)]]})
+            # streams longer than the decoder's 4096-byte read buffer: cut at every event boundary and its neighbours
+            small = [e for e in events if len(e) < 200]
+            for i in range(6 if thorough else 3):
+                evs = [rng.choice(small) for _ in range(rng.randint(40, 90))]
+                ops.append({"a": "Stream", "id": "long%d" % i, "events": [e.hex() for e in evs], "sparse": True})
             for i in range(3000 if thorough else 600):
                 ev = rng.choice(events)
                 ops.append({"a": "Input", "id": "mut%d" % i, "hex": mutate(rng, ev).hex()})
